@@ -348,11 +348,12 @@ def crash_points(run, old, new, server, state):
 def run(tier, seed):
     run = Run("C20", tier, seed, "fault_enumeration", floor=40)
     run.rule = ("real `rink` binary with XDG dirs in a scratch home and the endpoint pointed at a fault-injecting loopback server: "
-                "prior cache {absent, fresh, stale, unreadable fresh, unreadable stale} x server {200 complete (Content-Length and "
+                "prior cache {absent, fresh, stale, unreadable fresh, unreadable stale, dated ahead of the clock} x server {200 complete (Content-Length and "
                 "chunked), body cut after k bytes under both framings, 301/302/404/500/503, stall in body and before headers, reset, "
                 "refused, complete non-JSON body} x entry point {startup with a currency query, --fetch-currency}; cache bytes "
                 "compared with the two admissible contents, this and the next start's output checked, strace log checked against "
-                "the trace specification, and SIGKILL injected at every traced file syscall of the refresh; non-trivial = distinct "
+                "the trace specification, SIGKILL injected at every traced file syscall of the refresh, and sequences of refreshes on one "
+                "cache directory (cut / stalled / killed, then a shorter complete body); non-trivial = distinct "
                 "(cache state, behaviour, entry point) and (cache state, kill point) tuples")
     run.assumptions = ["a body without Content-Length or chunked framing that the server closes early is indistinguishable from a "
                        "complete short body and is not generated",
